@@ -141,10 +141,16 @@ def api_doc(rng, strings):
             else:
                 kids.append(run)
         body.append(X("w:p", {}, kids))
+    # two adjacent runs mapped to the same element with the same class names in ANOTHER ORDER: two attribute values, two elements
+    body.append(X("w:p", {}, [X("w:r", {}, [X("w:rPr", {}, [X("w:rStyle", {"w:val": "R2"})]), X("w:t", {"xml:space": "preserve"}, [XT(S())])]),
+                              X("w:r", {}, [X("w:rPr", {}, [X("w:rStyle", {"w:val": "R3"})]), X("w:t", {"xml:space": "preserve"}, [XT(S())])])]))
+    pkg.styles += [X("w:style", {"w:type": "character", "w:styleId": "R2"}, [X("w:name", {"w:val": "Run Two"})]),
+                   X("w:style", {"w:type": "character", "w:styleId": "R3"}, [X("w:name", {"w:val": "Run Three"})])]
     pkg.body = body
     # (the element names are the style map's, whatever HTML makes of them: script, style, textarea, title, xmp are elements like any other)
     ptag, rtag = rng.choice(["p", "p", "style", "script", "textarea", "title", "pre", "xmp"]), rng.choice(["span", "span", "script", "code", "style", "plaintext"])
     sm = "p.S1 => %s[data-x=%s].%s:fresh\nr.R1 => %s[title=%s]" % (ptag, gen_styles.esc_string(S()), "cls", rtag, gen_styles.esc_string(S()))
+    sm += "\nr.R2 => i.ka.kb\nr.R3 => i.kb.ka"
     return pkg, S(), sm, (S(), S())
 
 
@@ -232,6 +238,8 @@ def api_stream(ctx, dist):
                 find_drawings(pkg.body)
                 if [("alt" in nd["attrs"]) for nd in imgs_h] != described:
                     bad = "alt attributes do not follow the pictures' own descriptions: %s vs described %s" % ([nd["attrs"].get("alt") for nd in imgs_h], described)
+                elif 'class="kb ka"' not in tv or 'class="ka kb"' not in tv or 'class="kb ka"' not in hv:
+                    bad = "two runs mapped to <i> with the class names in different orders did not both keep their own class value"
                 elif skeleton_and_values(fh, vh) != skeleton_and_values(ft, vt):
                     bad = "substituting harmless strings for the document's strings changed tags, attribute names or nesting"
                 else:
